@@ -31,7 +31,7 @@ var profiles = map[string]Profile{
 		"collwrite": 3, "writerevert": 3, "delroot": 2},
 	// C12: collection management
 	"colls": {"set": 20, "del": 6, "setcoll": 12, "removecoll": 8, "names": 6, "flush": 6, "reopen": 4, "obs": 8,
-		"snapshot": 2, "snapclose": 2, "get": 4, "evict": 2, "private": 3},
+		"snapshot": 2, "snapclose": 2, "get": 4, "evict": 2, "private": 3, "cmpflip": 3},
 	// C11: CopyTo
 	"copy": {"set": 30, "del": 6, "flush": 5, "evict": 4, "reopen": 2, "setcoll": 4, "copyto": 6, "snapshot": 2, "obs": 3, "removecoll": 1},
 	// C19: lazy loading: large values, key-only operations in every cache state
@@ -96,7 +96,13 @@ func (r *seqRun) prio() int32 {
 	return r.w.rng.Int31()
 }
 
-func (r *seqRun) anyName() string { return r.w.U.Names[r.w.rng.Intn(len(r.w.U.Names))] }
+func (r *seqRun) anyName() string {
+	for {
+		if n := r.w.U.Names[r.w.rng.Intn(len(r.w.U.Names))]; n != flipName {
+			return n
+		}
+	}
+}
 
 func (r *seqRun) existingName(h *StoreH) (string, bool) {
 	ns := r.w.collNames(h)
@@ -527,6 +533,33 @@ func (r *seqRun) step() bool {
 			return true
 		}
 		return w.Close(sn) && w.Obs(m, "peek", "C04")
+	case "cmpflip":
+		// SetCollection on an existing (still empty) name installs a comparator
+		// that differs from the old one only in captured state: everything
+		// inserted afterwards must follow the NEW order
+		o := w.NewMem()
+		if o == nil || !w.SetColl(o, flipName) {
+			return false
+		}
+		if w.revOverride == nil {
+			w.revOverride = map[string]bool{}
+		}
+		w.revOverride[flipName] = !w.isRev(flipName)
+		ok := w.SetColl(o, flipName)
+		for i := 0; ok && i < 5+w.rng.Intn(6); i++ {
+			switch w.rng.Intn(5) {
+			case 0, 1, 2:
+				val, _ := w.U.NewValue(w.rng, false, nil)
+				ok = w.SetKV(o, flipName, r.anyKey(flipName), val, r.prio(), false, nil)
+			case 3:
+				ok = w.Obs(o, "api", "C12")
+			case 4:
+				ok = w.MinMax(o, flipName, w.rng.Intn(2) == 0, false, nil)
+			}
+		}
+		ok = ok && w.Obs(o, "api", "C12") && w.Close(o)
+		delete(w.revOverride, flipName)
+		return ok
 	case "otheralloc":
 		// unrelated allocation in another store of the same process: reuses
 		// whatever is on the package-wide free lists
